@@ -9,7 +9,7 @@ Open Scope Z_scope.
 
 (* ------------------------------------------------------------------ the reference semantics: laws *)
 (* every generated rewrite (operand order of AND / OR everywhere or at the top, re-association,
-   De Morgan, double negation, IN / BETWEEN expansion, always-true conjuncts, select-item order,
+   De Morgan, double negation, IN / BETWEEN expansion, equality as two inequalities, always-true conjuncts, select-item order,
    FROM order with LEFT <-> RIGHT, ON <-> WHERE of an inner join, surface syntax) returns the same
    bag of rows, up to the column permutation it states -- for every database and query *)
 Theorem equivalent_formulations : forall d rw q q' perm, db_wf d -> apply_rw d rw q = Some (q', perm) ->
@@ -45,6 +45,12 @@ Theorem in_between_expansion : forall e r, sem3 (expand e) r = sem3 e r.
 Proof. exact expand_sem3. Qed.
 Check in_between_expansion : forall e r, sem3 (expand e) r = sem3 e r.
 Print Assumptions in_between_expansion.
+
+(* a = b is a <= b AND a >= b (the formulation a hash join cannot take) *)
+Theorem equality_as_range : forall e r, sem3 (eq_range e) r = sem3 e r.
+Proof. exact eq_range_sem3. Qed.
+Check equality_as_range : forall e r, sem3 (eq_range e) r = sem3 e r.
+Print Assumptions equality_as_range.
 
 (* reordering FROM items: every join with its inputs exchanged (LEFT <-> RIGHT) returns the same
    rows with the two column blocks swapped *)
